@@ -5,6 +5,29 @@ from obs import body_ids, is_drop_ev, is_clone_ev, is_bad_ev
 
 USIZE_MAX = 2**64 - 1
 
+ISIZE_MAX = 2**63 - 1
+
+def resize_outcome(bk, size, align, cap, new):
+    """'ok' | 'panic' for Mem::resize(new) on the two resizable backends (allocation failure is not modelled:
+    the generators never ask for a valid layout that cannot be allocated)"""
+    if bk == "heap":
+        if cap == new or size == 0 or new == 0: return "ok"
+        b = size * new
+        if b > USIZE_MAX or b + (align - 1) > ISIZE_MAX: return "panic"
+        return "ok"
+    b = size * new
+    if b > USIZE_MAX or b > 2**30: return "panic"
+    return "ok"
+
+def reserve_outcome(bk, size, align, ln, cap, n, exact):
+    new_len = ln + n
+    if new_len > USIZE_MAX: return "panic"
+    if cap >= new_len: return "ok"
+    if exact: new = new_len
+    elif bk == "heap": new = max(min(2 * cap, USIZE_MAX), new_len)
+    else: new = max(cap + cap // 2, new_len)
+    return resize_outcome(bk, size, align, cap, new)
+
 class Fresh:
     """an identity created by this step; bound to the observed token on first use"""
     __slots__ = ("tok",)
@@ -39,7 +62,7 @@ def math_range(ln, lo, hi):
     return None
 
 def parse_sink(tok):
-    if tok in ("drop", "forget"): return (tok,)
+    if tok in ("drop", "forget", "info"): return (tok,)
     for p in ("dc", "push", "swap"):
         if tok.startswith(p) and tok[len(p):].isdigit(): return (p, int(tok[len(p):]))
     for p in ("ins", "lazy"):
@@ -61,6 +84,9 @@ class Shadow:
         self.leaky = False        # leaks are permitted from now on (forget / injected fault / lying len)
         self.fails = []
         self.stats = {"exact": 0, "invariant_only": 0, "nontrivial": 0}
+        self.blocks = []          # live heap blocks (size, align) attributed to the library
+        self.push_run = {}        # vector -> (pushes, capacity changes) while it only grows by push
+        self.any_panic_allocs = False
 
     # ------------------------------------------------------------------ helpers
     def fail(self, kind, msg): self.fails.append((kind, msg))
@@ -105,6 +131,8 @@ class Shadow:
         V = self.vecs
         if op in ("new", "withcap"):
             ex.new_vec = SV(int(t[1]), t[2], t[3])
+            if op == "withcap" and resize_outcome(t[2], self.size, self.align, 0, int(t[4])) == "panic":
+                ex.res = "panic"; ex.new_vec = None; ex.dead_new = True
             if t[2].startswith("stackn:"):
                 _, n, b = t[2].split(":")
                 if int(n) * self.size > int(b): ex.res = "panic"; ex.new_vec = None; ex.dead_new = True
@@ -184,22 +212,68 @@ class Shadow:
         if op in ("reserve", "reserveexact", "shrinktofit", "shrinkto"):
             v = int(t[1]); d = V[v]
             if op in ("reserve", "reserveexact"):
-                n = int(t[2])
-                if len(d.vis) + n > USIZE_MAX: ex.res = "panic"
-                elif self.size * (len(d.vis) + n) > 2**63 - 1 and (len(d.vis) + n) > d.cap: ex.res = "panic"
-                elif d.bk == "reloc" and self.size * (len(d.vis) + n) > 2**30 and (len(d.vis) + n) > d.cap: ex.res = "panic"
+                ex.res = reserve_outcome(d.bk, self.size, self.align, len(d.vis), d.cap, int(t[2]), op == "reserveexact")
             return ex
         if op == "release":
             ex.drops += list(self.held); ex.held_clear = True; return ex
+        if op == "info":
+            d = V[int(t[1])]
+            ex.out = ["t%d" % d.ty, "s%d" % self.size, "a%d" % self.align, "l%d" % len(d.vis), None,
+                      "e%d" % (1 if not d.vis else 0), "d%d" % (1 if self.drop else 0)]
+            return ex
+        if op == "dcvec":
+            d = V[int(t[1])]
+            ex.out = ["rS", "mS"] if int(t[2]) == d.ty else ["rN", "mN"]; return ex
+        if op == "wswap":
+            v = int(t[1]); i = int(t[2]); d = V[v]
+            if i >= len(d.vis): ex.res = "panic"; return ex
+            f = Fresh()
+            if int(t[3]) != d.ty: ex.res = "panic"; ex.drops.append(f); return ex
+            vis = list(d.vis); old = vis[i]; vis[i] = f; ex.vis[v] = vis; ex.out = [old]; ex.drops.append(old); return ex
+        if op == "tassign":
+            v = int(t[1]); i = int(t[2]); d = V[v]; f = Fresh()
+            if i >= len(d.vis): ex.res = "panic"; ex.drops.append(f); return ex
+            vis = list(d.vis); old = vis[i]; vis[i] = f; ex.vis[v] = vis; ex.drops.append(old); return ex
+        if op in ("swapb", "tswap"):
+            v = int(t[1]); i = int(t[2]); j = int(t[3]); d = V[v]
+            if i >= len(d.vis) or j >= len(d.vis):
+                if op == "tswap": ex.res = "panic"; return ex
+                raise Unknown("swapb out of range")
+            vis = list(d.vis); vis[i], vis[j] = vis[j], vis[i]; ex.vis[v] = vis; return ex
+        if op == "eswap":
+            v = int(t[1]); i = int(t[2]); w = int(t[3]); j = int(t[4]); a = V[v]; b = V[w]
+            if i >= len(a.vis) or j >= len(b.vis) or a.ty != b.ty: ex.res = "panic"; return ex
+            va = list(a.vis); vb = list(b.vis); va[i], vb[j] = vb[j], va[i]; ex.vis[v] = va; ex.vis[w] = vb; return ex
+        if op == "probe":
+            d = V[int(t[1])]
+            s_ = ("z%d" % len(d.vis)) if self.zst else (".".join(d.vis) if d.vis else "-")
+            ex.out = [s_, s_, s_]; return ex
+        if op == "views":
+            d = V[int(t[1])]; n = len(d.vis); cap = d.cap
+            ex.out = ["b%d" % (n * self.size), "s%d" % ((cap - n) * self.size), "o%d" % (n * self.size),
+                      "sc%d" % (cap - n), "so%d" % (n * self.size), "al0", "ts1", "tl%d" % n]
+            return ex
+        if op == "setlen":
+            v = int(t[1]); k = int(t[2]); d = V[v]
+            if len(d.vis) + k > d.cap: raise Unknown("set_len beyond capacity")
+            ex.vis[v] = list(d.vis) + [Fresh() for _ in range(k)]; return ex
+        if op == "rawrt":
+            return ex
+        if op == "rawparts":
+            d = V[int(t[1])]
+            f = ["l%d" % len(d.vis), "c%d" % d.cap, "s%d" % self.size, "a%d" % self.align, "t%d" % d.ty, "d%d" % (1 if self.drop else 0)]
+            ex.out = f + f; return ex
         if op == "dropvec":
-            v = int(t[1]); ex.drops += V[v].vis; ex.dead.append(v); return ex
+            v = int(t[1])
+            if v not in V or not V[v].alive: return ex
+            ex.drops += V[v].vis; ex.dead.append(v); return ex
         raise Unknown(op)
 
     def sink_value(self, ex, v, x, ty, sink, handle):
         """value x (element of vector v, already out of v's visible part) goes to a sink"""
         k = sink[0]
         if k == "drop": ex.drops.append(x)
-        elif k == "forget": ex.leak.append(x)
+        elif k == "forget": raise Unknown("forgotten handle")
         elif k == "dc":
             if sink[1] == ty: ex.out.append(x); ex.held_add.append(x)
             else: ex.out.append("N"); ex.drops.append(x)
@@ -218,6 +292,9 @@ class Shadow:
             f = Fresh()
             if sink[1] == ty: ex.out.append(x); ex.drops += [x, f]
             else: ex.res = "panic"; ex.drops += [f, x]
+        elif k == "info":
+            if not handle: ex.out.append(x)
+            ex.out += ["t%d" % ty, "s%d" % self.size]; ex.drops.append(x)
         else: raise Unknown(k)
 
     def expect_range(self, ex, t):
@@ -293,7 +370,14 @@ class Shadow:
         if ex is not None:
             exact = True
             self.check_exact(toks, ex, o)
+        elif forgetting and o.res == "ok" and fault is None:
+            self.forget_oracle(toks, o)
+        prev_caps = {k: d.cap for k, d in self.vecs.items() if d.alive}
+        prev_lens = {k: len(d.vis) for k, d in self.vecs.items() if d.alive}
+        had_heap = any(d.alive and d.bk == "heap" for d in self.vecs.values())
         self.invariants(toks, o, ex)
+        self.capacity_oracle(toks, o, prev_caps, prev_lens)
+        self.alloc_oracle(toks, o, had_heap)
         self.stats["exact" if exact else "invariant_only"] += 1
         return self.fails[nf0:]
 
@@ -308,7 +392,7 @@ class Shadow:
             # out tokens may embed ids ("id:rem"); compare textually after binding
             obs_out = [x.rstrip("!") for x in o.out]
             exp_out = [x.tok if isinstance(x, Fresh) else x for x in ex.out]
-            if not self.zst and exp_out != obs_out:
+            if not self.zst and (len(exp_out) != len(obs_out) or any(e is not None and e != o_ for e, o_ in zip(exp_out, obs_out))):
                 self.fail("vec-semantics", "%s: expected output %r, observed %r" % (what, exp_out, obs_out))
             if self.zst and len(exp_out) != len(obs_out):
                 self.fail("vec-semantics", "%s: expected %d outputs, observed %r" % (what, len(exp_out), obs_out))
@@ -446,6 +530,126 @@ class Shadow:
             self.seen.update(owners.keys())
             for i in prev_owned:
                 if i not in owners: self.gone.add(i)
+
+    def forget_oracle(self, toks, o):
+        """C07: after a forgotten handle / range iterator / item the elements before the affected index are
+        unchanged, later ones may be missing, and nothing new appears out of nowhere"""
+        what = " ".join(toks); op = toks[0]
+        if op not in ("pop", "remove", "swapremove", "drain", "splice"): return
+        v = int(toks[1]); d = self.vecs.get(v)
+        if d is None or v not in o.vecs: return
+        old = d.vis
+        if op == "pop": idx = max(len(old) - 1, 0)
+        elif op in ("remove", "swapremove"): idx = int(toks[2])
+        else:
+            r = math_range(len(old), toks[2], toks[3])
+            if r is None: return
+            idx = r[0]
+        ln, cap, body = o.vecs[v]
+        ids = body_ids(body)
+        if ln < min(idx, len(old)):
+            self.fail("forget-prefix", "%s: only %d elements left, the %d before the affected index must stay" % (what, ln, idx))
+        if ids is None: return
+        new = [i.rstrip("!") for i in ids]
+        if new[:idx] != old[:idx]:
+            self.fail("forget-prefix", "%s: elements before index %d changed: %r -> %r" % (what, idx, old[:idx], new[:idx]))
+        if not self.zst:
+            for i in new[idx:]:
+                if i not in old and i in self.seen:
+                    self.fail("forget-prefix", "%s: element %s appeared in the vector from elsewhere" % (what, i))
+
+    def capacity_oracle(self, toks, o, prev_caps, prev_lens):
+        """promises of reserve / reserve_exact / shrink_to(_fit) / with_capacity, stack capacities"""
+        what = " ".join(toks); op = toks[0]
+        from gen import kind_cap
+        if op in ("new", "withcap", "cloneempty", "cloneemptyin", "clone"):
+            k = self.nvec - 1
+            if k in o.vecs and k in self.vecs:
+                d = self.vecs[k]; cap = o.vecs[k][1]
+                want = kind_cap(d.bk, self.size)
+                if want is not None and want >= 0 and cap != want:
+                    self.fail("capacity", "%s: %s vector reports capacity %d, expected %d" % (what, d.bk, cap, want))
+                if op == "withcap" and o.res == "ok" and cap < int(toks[4]):
+                    self.fail("capacity", "%s: capacity %d < requested %d" % (what, cap, int(toks[4])))
+            return
+        if op in ("reserve", "reserveexact", "shrinktofit", "shrinkto") and o.res == "ok":
+            v = int(toks[1])
+            if v not in o.vecs or v not in prev_caps: return
+            ln, cap, _ = o.vecs[v]; old = prev_caps[v]; d = self.vecs[v]
+            evs = [e for e in o.ev if e[0] in "amr" or e.startswith("da")]
+            if op in ("reserve", "reserveexact"):
+                n = int(toks[2])
+                if cap < ln + n: self.fail("capacity", "%s: capacity %d < len + additional = %d" % (what, cap, ln + n))
+                if old >= ln + n and (cap != old or evs):
+                    self.fail("capacity", "%s: capacity was already sufficient (%d) but changed to %d / storage calls %r" % (what, old, cap, evs))
+            else:
+                bound = ln if op == "shrinktofit" else max(ln, int(toks[2]))
+                if cap > old: self.fail("capacity", "%s: capacity grew from %d to %d" % (what, old, cap))
+                if cap < min(old, bound): self.fail("capacity", "%s: capacity %d below the bound %d" % (what, cap, min(old, bound)))
+                if d.bk == "heap" and cap != min(old, bound):
+                    self.fail("capacity", "%s: heap capacity %d, expected exactly %d" % (what, cap, min(old, bound)))
+        # amortised growth of push runs
+        if op in ("push", "tpush") and o.res == "ok":
+            v = int(toks[1])
+            if v in o.vecs and v in prev_caps:
+                p, c = self.push_run.get(v, (0, 0))
+                p += 1
+                if o.vecs[v][1] != prev_caps[v]: c += 1
+                self.push_run[v] = (p, c)
+                bound = p.bit_length() + 1 if self.vecs[v].bk == "heap" else 2 * p.bit_length() + 3
+                if p >= 4 and c > bound:
+                    self.fail("capacity", "%s: %d capacity changes in a run of %d pushes (not amortised)" % (what, c, p))
+        elif op not in ("get", "at", "iter", "info", "probe", "views"):
+            for v in list(self.push_run):
+                if len(toks) > 1 and toks[1].isdigit() and int(toks[1]) == v: self.push_run.pop(v, None)
+
+    def alloc_oracle(self, toks, o, had_heap):
+        """allocator protocol as seen by the instrumented global allocator"""
+        from obs import is_alloc_ev
+        what = " ".join(toks)
+        evs = [e for e in o.ev if is_alloc_ev(e)]
+        if o.res != "ok":
+            # the panic machinery allocates too; only the end-of-case balance is checked for these steps
+            if evs: self.any_panic_allocs = True
+            for e in evs:
+                if e.startswith("da"):
+                    sz, al = e[2:].split(":"); b = (int(sz), int(al))
+                    if b in self.blocks: self.blocks.remove(b)
+                elif e.startswith("ra"):
+                    old, rest = e[2:].split(">"); new, al = rest.split(":"); b = (int(old), int(al))
+                    if b in self.blocks: self.blocks.remove(b); self.blocks.append((int(new), int(al)))
+                elif e.startswith("a"):
+                    # may be a vector's block or the panic payload: remember it so that a later release is not
+                    # reported; the exact accounting is off from here on (any_panic_allocs)
+                    sz, al = e[1:].split(":"); self.blocks.append((int(sz), int(al)))
+            return
+        for e in evs:
+            if e.startswith("da"):
+                sz, al = e[2:].split(":"); b = (int(sz), int(al))
+                if b in self.blocks: self.blocks.remove(b)
+                else: self.fail("alloc-protocol", "%s: dealloc of a block (%d bytes, align %d) that is not live" % (what, b[0], b[1]))
+            elif e.startswith("ra"):
+                old, rest = e[2:].split(">"); new, al = rest.split(":"); b = (int(old), int(al))
+                if b in self.blocks: self.blocks.remove(b)
+                else: self.fail("alloc-protocol", "%s: realloc presents a layout (%d bytes, align %d) that is not live" % (what, b[0], b[1]))
+                if int(new) == 0 or int(new) > 2**63 - 1: self.fail("alloc-protocol", "%s: realloc to invalid size %s" % (what, new))
+                self.blocks.append((int(new), int(al)))
+            else:
+                sz, al = e[1:].split(":")
+                if int(sz) == 0 or int(sz) > 2**63 - 1: self.fail("alloc-protocol", "%s: alloc with invalid size %s" % (what, sz))
+                if int(al) != self.align: self.fail("alloc-protocol", "%s: alloc with align %s, element align is %d" % (what, al, self.align))
+                self.blocks.append((int(sz), int(al)))
+        # every heap vector owns exactly one block of capacity x size bytes (none when that is zero)
+        want = []
+        for k, d in self.vecs.items():
+            if d.alive and d.bk == "heap" and k in o.vecs:
+                cap = o.vecs[k][1]
+                if cap * self.size > 0: want.append((cap * self.size, self.align))
+        if not self.any_panic_allocs and sorted(want) != sorted(self.blocks):
+            self.fail("alloc-protocol", "%s: live heap blocks %r, but the heap vectors need exactly %r" % (what, sorted(self.blocks), sorted(want)))
+        # stack / empty vectors never touch the heap
+        if evs and not had_heap and all((not d.alive) or d.bk not in ("heap",) for d in self.vecs.values()):
+            self.fail("heap-use", "%s: allocator calls %r although no live vector is heap-backed" % (what, evs))
 
     def end(self, z):
         """after every vector and held value is gone"""
